@@ -43,7 +43,12 @@ type FetchDriver struct {
 	Cancelled bool
 	MainSemBlocked int // how often main was found blocked on the semaphore at quiescence
 	Leaked    int
+	fnGoid    atomic.Int64
 }
+
+// Tainted is set when a run leaves goroutines behind that cannot be released (a fetch that
+// never returns): the worker process finishes reporting the run and asks to be replaced.
+var Tainted atomic.Bool
 
 var activeDrv atomic.Pointer[FetchDriver]
 
@@ -88,8 +93,10 @@ type quiesce struct {
 }
 
 type gInfo struct {
-	state  string
-	frames []string
+	id      int64
+	parent  int64
+	state   string
+	frames  []string
 }
 
 func parseStacks(buf []byte) []gInfo {
@@ -110,11 +117,17 @@ func parseStacks(buf []byte) []gInfo {
 			st = st[:k]
 		}
 		g := gInfo{state: st}
+		fmt.Sscanf(hdr, "goroutine %d ", &g.id)
 		for _, l := range lines[1:] {
 			if l == "" || l[0] == '\t' {
 				continue
 			}
 			g.frames = append(g.frames, l)
+			if strings.HasPrefix(l, "created by ") {
+				if k := strings.LastIndex(l, " in goroutine "); k >= 0 {
+					fmt.Sscanf(l[k+len(" in goroutine "):], "%d", &g.parent)
+				}
+			}
 		}
 		out = append(out, g)
 	}
@@ -145,15 +158,14 @@ func (d *FetchDriver) snapshot() (q quiesce, ok bool) {
 		if hasFrame(g, "sim.(*FetchDriver).snapshot") {
 			continue // the driver itself
 		}
-		rel := false
-		for _, f := range g.frames {
-			if strings.HasPrefix(f, "berty.tech/go-ipfs-log") || strings.HasPrefix(f, "verif/sim.") ||
-				strings.HasPrefix(f, "created by berty.tech/go-ipfs-log") {
-				rel = true
-				break
-			}
+		// only the goroutine running fn and the goroutines it started belong to this fetch; anything
+		// left over from an earlier (failed) run must not be mistaken for it
+		fnID := d.fnGoid.Load()
+		if fnID == 0 {
+			ok = false // fn has not started yet
+			continue
 		}
-		if !rel {
+		if g.id != fnID && g.parent != fnID {
 			continue
 		}
 		switch {
@@ -239,6 +251,7 @@ func (d *FetchDriver) Run(fn func()) {
 				fp = &fetchPanic{x, string(debug.Stack())}
 			}
 		}()
+		d.fnGoid.Store(goid())
 		fn()
 	}()
 	defer func() {
@@ -266,6 +279,7 @@ func (d *FetchDriver) Run(fn func()) {
 		}
 		d.Steps++
 		if d.Steps > d.MaxSteps {
+			Tainted.Store(true)
 			d.R.Violate("fetch-termination", "fetch still running after %d driver steps", d.MaxSteps)
 		}
 		if q.mainSem {
@@ -313,6 +327,7 @@ func (d *FetchDriver) Run(fn func()) {
 			if d.Cancel != nil && !d.Cancelled {
 				acts = []act{{2, 0}}
 			} else {
+				Tainted.Store(true)
 				d.R.Violate("fetch-termination", "fetch is stuck: not finished, nothing outstanding to complete (mainCond=%v mainSem=%v stalled=%d hooks=%d cancelled=%v)",
 					q.mainCond, q.mainSem, q.stalled, len(hooks), d.Cancelled)
 			}
